@@ -303,6 +303,70 @@ def g_typedefs(rnd):
     return files
 
 
+def g_ident_shared_prefix(rnd):
+    """same-named identities in modules that declare the SAME own prefix (legal: a prefix is local to the module using
+    it), all derived from one base: the order of the base's value list must not be left to the map order"""
+    files = [mod("base", "  identity kind;\n  identity other { base kind; }\n  leaf r { type identityref { base kind; } }\n", prefix="b")]
+    n = rnd.randint(2, 4)
+    names = rnd.sample(["fast", "slow", "mid", "other"], rnd.randint(1, 3))
+    for i in range(n):
+        me = "vendor%d" % i
+        pfx = "v" if rnd.random() < 0.8 else "w"
+        body = "".join("  identity %s { base b:kind; }\n" % nm for nm in names if rnd.random() < 0.9)
+        if rnd.random() < 0.4:
+            body += "  identity deep { base %s; }\n" % names[0] if ("identity %s " % names[0]) in body else ""
+        body += "  leaf u%d { type identityref { base b:kind; } }\n" % i
+        files.append(mod(me, body, prefix=pfx, imports=[("b", "base")]))
+    return files
+
+
+def g_typedef_cycles(rnd):
+    """typedef cycles of length 2..4 (inside one module and across imports), next to other errors in several files:
+    every member of a cycle is reported, whichever the dictionary map yields first"""
+    files = []
+    nmods = rnd.randint(1, 3)
+    for mi in range(nmods):
+        me = "tc%d" % mi
+        body = ""
+        for ci in range(rnd.randint(1, 2)):
+            ln = rnd.randint(2, 4)
+            names = ["c%d_%d_%d" % (mi, ci, j) for j in range(ln)]
+            lines = ["  typedef %s { type %s; }\n" % (names[j], names[(j + 1) % ln]) for j in range(ln)]
+            rnd.shuffle(lines)
+            body += "".join(lines)
+            if rnd.random() < 0.6:
+                body += "  leaf l%d_%d { type %s; }\n" % (mi, ci, rnd.choice(names))
+            if rnd.random() < 0.4:
+                body += "  typedef into%d_%d { type %s; }\n" % (mi, ci, rnd.choice(names))
+        if rnd.random() < 0.5:
+            body += "  leaf bad%d { type nope%d; } leaf bad%db { type nope; }\n" % (mi, mi, mi)
+        if rnd.random() < 0.3:
+            body += "  typedef ok%d { type string; }\n  leaf fine%d { type ok%d; }\n" % (mi, mi, mi)
+        files.append(mod(me, body))
+    if nmods >= 2 and rnd.random() < 0.6:
+        # a cycle through two modules that import each other
+        files.append(mod("tx", "  typedef a { type ty:b; }\n  leaf la { type a; }\n", imports=[("ty", "ty")]))
+        files.append(mod("ty", "  typedef b { type tx:a; }\n", imports=[("tx", "tx")]))
+    return files
+
+
+def g_rev_norev(rnd):
+    """one module name from two sources, one with a revision statement and one without, plus importers that give no
+    revision-date: which of the two the bare name denotes must not depend on the load order"""
+    rev = rnd.choice(["2019-05-05", "2020-01-01", "2023-12-31"])
+    n1, t1 = mod("m", "  typedef t { type string; }\n  leaf dated { type string; }\n  container c { leaf a { type int8; } }\n", rev=rev)
+    n2, t2 = mod("m", "  typedef t { type int32; }\n  leaf bare { type string; }\n  container c { leaf b { type int8; } }\n")
+    files = [(n1, t1), (n2, t2)]
+    files.append(mod("imp1", "  leaf u { type m:t; }\n", imports=[("m", "m")]))
+    if rnd.random() < 0.5:
+        files.append(mod("imp2", "  leaf v { type m:t; }\n  augment /m:c { leaf extra { type string; } }\n", imports=[("m", "m")]))
+    if rnd.random() < 0.3:
+        files.append(mod("imp3", "  leaf w { type m:t; }\n", imports=[("m", "m", rev)]))
+    if rnd.random() < 0.3:
+        files.append(mod("dv", '  deviation /m:c { deviate not-supported; }\n', imports=[("m", "m")]))
+    return files
+
+
 def g_random(rnd):
     return files_of_schema(sg.random_schema(rnd, n_modules=rnd.randint(2, 4)))
 
@@ -338,7 +402,12 @@ def g_random_faulty(rnd):
 GENS = [("random", g_random, 8), ("random-faulty", g_random_faulty, 3), ("identities", g_identities, 2),
         ("deviate-delete-add", g_dev_delete_add, 1), ("two-deviators", g_two_deviators, 2), ("two-augmenters", g_two_augmenters, 2),
         ("dup-names", g_dup_names, 1), ("errors-multi", g_errors_multi, 2), ("missing-imports", g_missing_imports, 2),
-        ("two-revisions", g_two_revisions, 1), ("typedefs", g_typedefs, 1)]
+        ("two-revisions", g_two_revisions, 1), ("typedefs", g_typedefs, 1),
+        ("ident-shared-prefix", g_ident_shared_prefix, 2), ("typedef-cycles", g_typedef_cycles, 2), ("rev-norev", g_rev_norev, 2)]
+# families whose defects only show as a difference between runs with the SAME input: more repeats
+REPEATS = {"ident-shared-prefix": 6, "typedef-cycles": 6, "rev-norev": 5, "identities": 5}
+# always present, whatever the seed draws
+CORPUS = [("ident-shared-prefix", g_ident_shared_prefix, 6), ("typedef-cycles", g_typedef_cycles, 6), ("rev-norev", g_rev_norev, 4)]
 
 
 def go_line(files, opts="-"):
@@ -428,7 +497,7 @@ def metamorphic(res, cases, rnd, k, max_perms):
     lines, index = [], []
     for ci, (gen, files, opts) in enumerate(cases):
         n = len(files)
-        for rep in range(k):
+        for rep in range(max(k, REPEATS.get(gen, 0))):
             lines.append(go_line(files, opts))
             index.append((ci, list(range(n))))
         for p in orders_for(n, rnd, max_perms):
@@ -579,6 +648,9 @@ def cli_part(res, cases, rnd, k, max_perms):
 def gen_cases(rnd, n):
     weights = [w for _, _, w in GENS]
     cases = []
+    for name, f, cnt in CORPUS:
+        r2 = random.Random("corpus-" + name)
+        cases += [(name, f(r2), "-") for _ in range(cnt)]
     for _ in range(n):
         name, f, _w = rnd.choices(GENS, weights=weights)[0]
         files = f(rnd)
@@ -594,7 +666,7 @@ def run(res, tier, seed, proof):
     cases = gen_cases(rnd, 300 if quick else 16000)
     k, max_perms = (3, 8) if quick else (5, 23)
     mm = metamorphic(res, cases, rnd, k, max_perms)
-    cli_cases = cases[:40] if quick else cases[:1500]
+    cli_cases = cases[:50] if quick else cases[:1500]
     cli = cli_part(res, cli_cases, rnd, 3 if quick else 4, 4 if quick else 8)
     cov = dict(
         evaluations=es_evals + mm["runs"] + cli["invocations"],
@@ -605,7 +677,8 @@ def run(res, tier, seed, proof):
              "groupings, augments, deviations), faulty variants (module missing, unknown types, repeated leaves) and tie/conflict "
              "generators (same identity name in several modules, deviate delete+add, several modules deviating or augmenting one "
              "node, duplicate names, errors in several files and on one line with lines 9/10/100, missing imports, two revisions, "
-             "typedef chains): each processed k times in one order and in all (<= 4 files, capped) or sampled load orders; all "
+             "typedef chains, same-named identities in modules sharing an own prefix, typedef cycles of length 2-4, one module "
+             "name with and without revision plus importers; the last three also as a fixed corpus with >= 5 repeats): each processed k times in one order and in all (<= 4 files, capped) or sampled load orders; all "
              "dumps byte-identical (ids included; id-only differences counted), error list ordered and duplicate-free.  (3) the "
              "goyang command with --format tree/types on a prefix of the same sets, repeated and with permuted arguments.  "
              "non-trivial = more than one file / distinct set of error texts",
